@@ -12,6 +12,21 @@ from ..translate import TranslationError, get_function, strip_doc, lit
 
 PROP = 'C16'
 THEOREMS = [
+    # 3 <-> 4 index notations
+    'C16.plane34_roundtrip', 'C16.plane43_int_roundtrip', 'C16.vector34_roundtrip', 'C16.vector4_same_direction',
+    'C16.sumIsZero_int', 'C16.plane4_api',
+    # plane normal = reciprocal-lattice direction, zone law
+    'C16.idx_cross_parallel', 'C16.planeInPlane_zero', 'C16.cross_of_lattice_vectors', 'C16.normal_is_reciprocal',
+    'C16.normal_unit_along_reciprocal', 'C16.normal_left_handed', 'C16.recip_dot_lattice', 'C16.normal_perp_iff_zone',
+    # centering tables (generated from miller.py)
+    'C16.centering_inverse', 'C16.centering_det',
+    # reduce_indices / all_indices
+    'C16.gcdList_spec', 'C16.reduce_coprime', 'C16.reduce_same_direction', 'C16.reduce_zero',
+    'C16.allIndices_complete', 'C16.allIndices_sound', 'C16.allIndices_reduce_complete',
+    # family identification
+    'C16.isclose_iff', 'C16.identify_cubic', 'C16.identify_hexagonal', 'C16.identify_tetragonal',
+    'C16.identify_rhombohedral', 'C16.identify_orthorhombic', 'C16.identify_monoclinic', 'C16.identify_triclinic',
+    'C16.identify_iff_pred',
 ]
 PARTIAL = {}
 GENERATED = ['MillerTables']
@@ -125,3 +140,924 @@ def translate():
         parts.append(f'def {look} (setting : String) : Option (M3 K) :=\n{body}  none\n')
     parts.append('end Atomman.Gen\n')
     return {'MillerTables': '\n'.join(parts)}
+
+
+# ----------------------------------------------------------------------------------------
+# shared generators
+# ----------------------------------------------------------------------------------------
+RULE = ('exhaustive integer triples |h|,|k|,|l| <= N (N=6 quick, 12 thorough) incl. zeros and negatives for '
+        'plane3to4/vector3to4/plane normals/reduce_indices, quadruples with i = -(h+k) and i off by one (guard), '
+        'cells: one of every crystal family from the Box constructors with generic parameters, random dyadic '
+        'right-handed triclinic cells (exact regime), random float triclinic cells; all 8 centering settings plus '
+        'unknown keys; all_indices(m, reduce) for small m; index strings over the 4 bracket kinds with optional '
+        'p/q prefix and spacing variants plus malformed strings; family predicates on constructor cells and on '
+        'duck-typed parameter sets near the isclose boundary; distinct = distinct canonical driver line; '
+        'non-trivial = not the zero index vector / not an error case')
+ASSUMPTIONS = [
+    'the final division by numpy.linalg.norm is a positive scalar (the model returns the unnormalised exact normal; '
+    'the harness normalises it in float)',
+    'IEEE double rounding of the implementation is bounded by 16*2^-53*(|a||b| row-norm bound)/|a x b| on plane '
+    'normals, 1e-14 relative elsewhere; dyadic cells are compared with the same bound (arithmetic exact there)',
+    'numpy gcd/lcm/sign/dot/cross/apply_along_axis, str.index/split and np.fromstring(sep=" ") behave as documented',
+    'Python float() numerals are modelled for the integer grammar only (sign, digits, surrounding blanks)',
+    'Box.a..gamma (sqrt/arccos) are inputs of the family model: the measured six parameters are sent exactly',
+]
+TRUSTED = ['numpy', 'fractions.Fraction oracle in search()']
+
+U = 2.0 ** -53
+ATOL_GUARD = 1e-8       # numpy.allclose default atol (the h+k+i guard)
+FAMILIES = ['cubic', 'hexagonal', 'tetragonal', 'rhombohedral', 'orthorhombic', 'monoclinic', 'triclinic']
+
+
+def _np():
+    import numpy as np
+    return np
+
+
+def _errclass(e):
+    if isinstance(e, AssertionError):
+        return 'err:assert'
+    if isinstance(e, ZeroDivisionError):
+        return 'err:zerodiv'
+    if isinstance(e, ValueError):
+        return 'err:value'
+    return 'err:other:' + type(e).__name__
+
+
+def _call(f, *a, **k):
+    """-> (result, None) or (None, error-class)"""
+    np = _np()
+    try:
+        with np.errstate(all='ignore'):
+            return f(*a, **k), None
+    except Exception as e:  # noqa
+        return None, _errclass(e)
+
+
+def _triples(N):
+    r = range(-N, N + 1)
+    return [(h, k, l) for h in r for k in r for l in r]
+
+
+def _generic_lengths(rng):
+    while True:
+        v = sorted(rng.uniform(2.0, 9.0) for _ in range(3))
+        if v[1] / v[0] > 1.03 and v[2] / v[1] > 1.03:
+            rng.shuffle(v)
+            return v
+
+
+def _tri_angles(rng):
+    """realisable, pairwise different (> 1.5 deg), away from 90."""
+    while True:
+        al, be, ga = (rng.uniform(55.0, 125.0) for _ in range(3))
+        if min(abs(al - be), abs(al - ga), abs(be - ga)) < 1.5:
+            continue
+        if min(abs(al - 90), abs(be - 90), abs(ga - 90)) < 1.5:
+            continue
+        ca, cb, cg = (math.cos(math.radians(x)) for x in (al, be, ga))
+        vol2 = 1 - ca * ca - cb * cb - cg * cg + 2 * ca * cb * cg
+        if vol2 > 0.15:
+            return al, be, ga
+
+
+def _family_cells(rng):
+    """one Box per crystal family from the family constructors, generic parameters -> [(family, args, box)]"""
+    import atomman as am
+    a, b, c = _generic_lengths(rng)
+    out = []
+    out.append(('cubic', (a,), am.Box.cubic(a)))
+    out.append(('hexagonal', (a, c), am.Box.hexagonal(a, c)))
+    out.append(('tetragonal', (a, c), am.Box.tetragonal(a, c)))
+    while True:
+        al = rng.uniform(40.0, 118.0)
+        if abs(al - 90) > 1.5:
+            break
+    out.append(('rhombohedral', (a, al), am.Box.trigonal(a, al)))
+    out.append(('orthorhombic', (a, b, c), am.Box.orthorhombic(a, b, c)))
+    be = rng.uniform(92.0, 135.0)
+    out.append(('monoclinic', (a, b, c, be), am.Box.monoclinic(a, b, c, be)))
+    al, be, ga = _tri_angles(rng)
+    out.append(('triclinic', (a, b, c, al, be, ga), am.Box.triclinic(a, b, c, al, be, ga)))
+    return out
+
+
+def _det3(v):
+    return (v[0][0] * (v[1][1] * v[2][2] - v[1][2] * v[2][1])
+            - v[0][1] * (v[1][0] * v[2][2] - v[1][2] * v[2][0])
+            + v[0][2] * (v[1][0] * v[2][1] - v[1][1] * v[2][0]))
+
+
+def _dyadic_cell(rng):
+    """right-handed cell with entries multiples of 1/8 in [-4, 4], det >= 1 (exact double arithmetic)."""
+    import atomman as am
+    while True:
+        v = [[cm.dyadic(rng, -4, 4, 3) for _ in range(3)] for _ in range(3)]
+        d = _det3(v)
+        if abs(d) < 1.0:
+            continue
+        if d < 0:
+            v[1], v[2] = v[2], v[1]
+        if any(max(abs(x) for x in row) == 0 for row in v):
+            continue
+        return am.Box(vects=v)
+
+
+def _float_cell(rng):
+    """random float triclinic cell (LAMMPS-normal form via a,b,c,angles), right-handed."""
+    import atomman as am
+    a, b, c = _generic_lengths(rng)
+    al, be, ga = _tri_angles(rng)
+    return am.Box(a=a, b=b, c=c, alpha=al, beta=be, gamma=ga)
+
+
+def _params(box):
+    return [float(box.a), float(box.b), float(box.c), float(box.alpha), float(box.beta), float(box.gamma)]
+
+
+def _fam_line(params, rtol=1e-5, atol=1e-8):
+    return 'fam ' + cm.fr(rtol) + ' ' + cm.fr(atol) + ' ' + ' '.join(cm.fr(x) for x in params)
+
+
+def _codes(s):
+    return 'fromstr ' + ' '.join(str(ord(ch)) for ch in s)
+
+
+def _render(rng, frac, kind, idx, messy=False):
+    o, c = kind
+    sp = lambda: ' ' * rng.choice([1, 1, 2, 3]) if messy else ' '   # noqa
+    body = sp().join(str(i) for i in idx)
+    if messy:
+        body = ' ' * rng.choice([0, 1]) + body + ' ' * rng.choice([0, 1])
+    s = o + body + c
+    if frac is not None:
+        p, q = frac
+        pre = f'{p}/{q}'
+        if messy:
+            pre = ' ' * rng.choice([0, 1]) + pre
+            s = pre + ' ' * rng.choice([0, 1, 2]) + s
+        else:
+            s = pre + ' ' + s
+    return s
+
+
+BRACKETS = [('[', ']'), ('(', ')'), ('<', '>'), ('{', '}')]
+
+
+# ----------------------------------------------------------------------------------------
+# correspondence: Lean model driver vs the real functions on identical exact inputs
+# ----------------------------------------------------------------------------------------
+class _Batch:
+    """collect (line, impl result or error class, comparer, info) and diff against the driver in one go."""
+
+    def __init__(self, ctx):
+        self.ctx = ctx
+        self.items = []
+
+    def add(self, kind, line, impl, err, cmp, info, nontrivial=True, sample=None):
+        self.items.append((kind, line, impl, err, cmp, info))
+        self.ctx.stats.case(kind, line, nontrivial=nontrivial and err is None, sample=sample)
+
+    def run(self):
+        outs = self.ctx.driver.ask_many([it[1] for it in self.items])
+        for (kind, line, impl, err, cmp, info), out in zip(self.items, outs):
+            if err is not None or out.startswith('err:'):
+                if err != out:
+                    self.ctx.disagree(kind + ':error', f'{kind}: implementation {err or "returned a value"} '
+                                      f'but model {out if out.startswith("err:") else "returned a value"} on {info}',
+                                      {'op': kind, 'line': line, 'input': info, 'impl': err or _tolist(impl),
+                                       'model': out})
+                continue
+            msg = cmp(impl, out)
+            if msg:
+                self.ctx.disagree(kind, f'{kind}: {msg} on {info}',
+                                  {'op': kind, 'line': line, 'input': info, 'impl': _tolist(impl), 'model': out})
+        self.items = []
+
+
+def _tolist(x):
+    np = _np()
+    if isinstance(x, np.ndarray):
+        return x.tolist()
+    return x
+
+
+def _cmp_exact(impl, out):
+    model = cm.unfrs(out)
+    vals = list(_np().asarray(impl).ravel().tolist())
+    if len(vals) != len(model) or any(Fraction(v) != m for v, m in zip(vals, model)):
+        return f'implementation {vals} != model {[str(m) for m in model]} (exact)'
+    return None
+
+
+def _cmp_close(rtol, atol):
+    def f(impl, out):
+        model = cm.unfrs(out)
+        vals = list(_np().asarray(impl).ravel().tolist())
+        if not cm.allclose(vals, model, rtol=rtol, atol=atol):
+            return f'implementation {vals} != model {[float(m) for m in model]}'
+        return None
+    return f
+
+
+def _cmp_ints(impl, out):
+    np = _np()
+    arr = np.asarray(impl)
+    if arr.dtype.kind not in 'iu':
+        return f'implementation returned dtype {arr.dtype} (values {arr.ravel().tolist()}), model returns integers {out}'
+    model = [int(t) for t in out.split()]
+    if arr.ravel().tolist() != model:
+        return f'implementation {arr.ravel().tolist()} != model {model}'
+    return None
+
+
+def _plane_tol(V, a, b, nvec):
+    """rounding bound of s*cross(a.V, b.V)/norm derived from the model's in-plane vectors (see ASSUMPTIONS)."""
+    rown = [math.sqrt(sum(float(x) ** 2 for x in r)) for r in V]
+    Aa = sum(abs(ai) * rn for ai, rn in zip(a, rown))
+    Ab = sum(abs(bi) * rn for bi, rn in zip(b, rown))
+    nn = math.sqrt(sum(float(x) ** 2 for x in nvec))
+    return 16 * U * (Aa * Ab / nn) + 16 * U
+
+
+def _cmp_plane(V):
+    def f(impl, out):
+        left, right = out.split('|')
+        ints = [int(t) for t in left.split()]
+        a, b = ints[1:4], ints[4:7]
+        n = cm.unfrs(right)
+        nn = math.sqrt(float(sum(x * x for x in n)))
+        unit = [float(x) / nn for x in n]
+        tol = _plane_tol(V, a, b, n)
+        vals = _np().asarray(impl).ravel().tolist()
+        if len(vals) != 3 or any(not (abs(v - m) <= tol) for v, m in zip(vals, unit)):
+            return f'implementation normal {vals} != model {unit} (tol {tol:.2e}; model a={a} b={b} s={ints[0]})'
+        return None
+    return f
+
+
+def _cmp_fam(impl, out):
+    """impl = (identify, [7 predicate bools])"""
+    toks = out.split()
+    name = None if toks[0] == 'none' else toks[0]
+    bits = [t == '1' for t in toks[1:]]
+    if impl[0] != name or [bool(x) for x in impl[1]] != bits:
+        return f'implementation identify={impl[0]} predicates={[int(bool(x)) for x in impl[1]]} != model {out}'
+    return None
+
+
+def correspond(ctx):
+    np = _np()
+    import atomman as am
+    from atomman.tools import miller, crystalsystem
+    rng = ctx.rng
+    N = ctx.n(6, 12)
+    B = _Batch(ctx)
+    tri = _triples(N)
+    T = np.array(tri)
+    atol_s = cm.fr(ATOL_GUARD)
+
+    # ---- A. 3 <-> 4 conversions ---------------------------------------------------------
+    p34 = miller.plane3to4(T)
+    v34 = miller.vector3to4(T)
+    for t, r1, r2 in zip(tri, p34, v34):
+        B.add('plane3to4', 'p34 %d %d %d' % t, r1, None, _cmp_exact, list(t), sample={'op': 'plane3to4', 'hkl': list(t)})
+        B.add('vector3to4', 'v34 %d %d %d' % t, r2, None, _cmp_close(1e-14, 1e-15), list(t),
+              sample={'op': 'vector3to4', 'uvw': list(t)})
+    # shape variants of the same calls (list, single, nested leading shapes)
+    _shape_variants(ctx, 'plane3to4', miller.plane3to4, T, p34)
+    _shape_variants(ctx, 'vector3to4', miller.vector3to4, T, v34)
+    # 4 -> 3: valid quadruples exhaustively (vectorised + per row), guard violations per row
+    M = min(N, ctx.n(5, 8))
+    quads_ok = [(h, k, -(h + k), l) for h in range(-M, M + 1) for k in range(-M, M + 1) for l in range(-M, M + 1)]
+    Q = np.array(quads_ok)
+    p43 = miller.plane4to3(Q)
+    v43 = miller.vector4to3(Q)
+    for q, r1, r2 in zip(quads_ok, p43, v43):
+        B.add('plane4to3', f'p43 {atol_s} %d %d %d %d' % q, r1, None, _cmp_exact, list(q),
+              sample={'op': 'plane4to3', 'hkil': list(q)})
+        B.add('vector4to3', f'v43 {atol_s} %d %d %d %d' % q, r2, None, _cmp_exact, list(q),
+              sample={'op': 'vector4to3', 'uvtw': list(q)})
+    _shape_variants(ctx, 'plane4to3', miller.plane4to3, Q, p43)
+    _shape_variants(ctx, 'vector4to3', miller.vector4to3, Q, v43)
+    for q in rng.sample(quads_ok, ctx.n(300, 3000)):
+        for d in (1, -1, rng.randint(2, 9)):
+            bad = (q[0], q[1], q[2] + d, q[3])
+            for name, f, op in (('plane4to3', miller.plane4to3, 'p43'), ('vector4to3', miller.vector4to3, 'v43')):
+                r, e = _call(f, list(bad))
+                B.add(name + ':guard', f'{op} {atol_s} %d %d %d %d' % bad, r, e, _cmp_exact, list(bad), nontrivial=False)
+    # an array with one bad row is rejected as a whole
+    for name, f in (('plane4to3', miller.plane4to3), ('vector4to3', miller.vector4to3)):
+        arr = np.array(quads_ok[:5] + [(1, 1, 1, 0)] + quads_ok[5:9])
+        r, e = _call(f, arr)
+        ctx.stats.case(name + ':guard-array', 'one bad row', nontrivial=False)
+        if e != 'err:value':
+            ctx.disagree(name + ':guard-array', f'{name}: array with a row h+k+i != 0 was accepted',
+                         {'op': name, 'input': arr.tolist(), 'impl': _tolist(r)})
+    # non-integer four-index vectors: images of vector3to4 (thirds), tiny and small guard offsets
+    for t in rng.sample(tri, ctx.n(300, 3000)):
+        q = miller.vector3to4(list(t))
+        for off in (0.0, 1e-10, -1e-12, 1e-6, -1e-3):
+            qq = q.copy()
+            qq[2] += off
+            for name, f, op in (('vector4to3', miller.vector4to3, 'v43'), ('plane4to3', miller.plane4to3, 'p43')):
+                r, e = _call(f, qq)
+                B.add(name + ':float', f'{op} {atol_s} ' + cm.frs(qq), r, e, _cmp_close(1e-14, 1e-14),
+                      {'quad': qq.tolist()}, nontrivial=(off == 0.0))
+    B.run()
+
+    # ---- cells ---------------------------------------------------------------------------
+    cells = []
+    for fam, args, box in _family_cells(rng):
+        cells.append((fam, box))
+    for _ in range(ctx.n(2, 8)):
+        cells.append(('dyadic', _dyadic_cell(rng)))
+    for _ in range(ctx.n(1, 6)):
+        cells.append(('float-triclinic', _float_cell(rng)))
+    ctx.extra['cells'] = [c[0] for c in cells]
+
+    # ---- G. family predicates on the constructor cells (several per family) -----------------
+    fam_boxes = [(fam, box) for fam, box in cells]
+    for _ in range(ctx.n(6, 60)):
+        fam_boxes.extend((fam, box) for fam, args, box in _family_cells(rng))
+    preds_box = ['iscubic', 'ishexagonal', 'istetragonal', 'isrhombohedral', 'isorthorhombic', 'ismonoclinic',
+                 'istriclinic']
+    for fam, box in fam_boxes:
+        par = _params(box)
+        for rtol, atol in ((1e-5, 1e-8), (2.0 ** -9, 2.0 ** -12)):
+            impl = (box.identifyfamily(rtol=rtol, atol=atol), [getattr(box, p)(rtol=rtol, atol=atol) for p in preds_box])
+            B.add('family:Box', _fam_line(par, rtol, atol), impl, None, _cmp_fam, {'cell': fam, 'params': par},
+                  sample={'op': 'identifyfamily', 'cell': fam, 'params': par})
+            impl2 = (crystalsystem.identifyfamily(box, rtol=rtol, atol=atol),
+                     [getattr(crystalsystem, p)(box, rtol=rtol, atol=atol) for p in preds_box])
+            B.add('family:crystalsystem', _fam_line(par, rtol, atol), impl2, None, _cmp_fam,
+                  {'cell': fam, 'params': par})
+    # duck-typed parameter sets near the isclose boundary (stand-alone predicates read box.a .. box.gamma)
+    from types import SimpleNamespace
+    for _ in range(ctx.n(400, 6000)):
+        rtol, atol = rng.choice([(2.0 ** -10, 2.0 ** -20), (1e-5, 1e-8), (2.0 ** -6, 2.0 ** -3)])
+
+        def near(x):
+            tol = atol + rtol * abs(x)
+            return x + rng.choice([0.0, 0.5, 0.98, 1.02, 2.0, 40.0, -0.5, -0.98, -1.02, -2.0, -40.0]) * tol
+        a = cm.dyadic(rng, 2, 9, 4)
+        b = rng.choice([near(a), near(a), cm.dyadic(rng, 2, 9, 4)])
+        c = rng.choice([near(a), near(a), cm.dyadic(rng, 2, 9, 4)])
+        al = rng.choice([near(90.0), near(90.0), cm.dyadic(rng, 50, 130, 2)])
+        be = rng.choice([near(90.0), near(al), cm.dyadic(rng, 50, 130, 2)])
+        ga = rng.choice([near(90.0), near(120.0), near(al), cm.dyadic(rng, 50, 130, 2)])
+        duck = SimpleNamespace(a=a, b=b, c=c, alpha=al, beta=be, gamma=ga)
+        par = [a, b, c, al, be, ga]
+        impl = (crystalsystem.identifyfamily(duck, rtol=rtol, atol=atol),
+                [getattr(crystalsystem, p)(duck, rtol=rtol, atol=atol) for p in preds_box])
+        B.add('family:boundary', _fam_line(par, rtol, atol), impl, None, _cmp_fam,
+              {'params': par, 'rtol': rtol, 'atol': atol})
+    B.run()
+
+    # ---- B/C. Cartesian vectors and plane normals per cell ------------------------------------
+    exhaustive_cells = ctx.n(9, 14)
+    for ci, (label, box) in enumerate(cells):
+        V = box.vects
+        Vs = cm.frs(V)
+        Vfr = [[Fraction(float(x)) for x in row] for row in V]
+        ishex_model = ctx.driver.ask(_fam_line(_params(box))).split()[2] == '1'
+        hx = '1' if ishex_model else '0'
+        sel = tri if ci < exhaustive_cells else rng.sample(tri, ctx.n(300, 2000))
+        S = np.array(sel)
+        nz = [t for t in sel if t != (0, 0, 0)]
+        normals = box.plane_crystal_to_cartesian(np.array(nz))
+        for t, r in zip(nz, normals):
+            B.add('plane_normal', f'plane {hx} {atol_s} {Vs} %d %d %d' % t, r, None, _cmp_plane(Vfr),
+                  {'cell': label, 'vects': V.tolist(), 'hkl': list(t)},
+                  sample={'op': 'plane_crystal_to_cartesian', 'cell': label, 'vects': V.tolist(), 'hkl': list(t)})
+        r, e = _call(box.plane_crystal_to_cartesian, [0, 0, 0])
+        B.add('plane_normal:zero', f'plane {hx} {atol_s} {Vs} 0 0 0', r, e, _cmp_plane(Vfr), {'cell': label}, nontrivial=False)
+        _shape_variants(ctx, 'plane_crystal_to_cartesian', box.plane_crystal_to_cartesian, np.array(nz), normals,
+                        extra={'cell': label})
+        carts = box.vector_crystal_to_cartesian(S)
+        exact = label in ('dyadic', 'cubic', 'orthorhombic', 'tetragonal')
+        for t, r in zip(sel[::ctx.n(7, 3)], carts[::ctx.n(7, 3)]):
+            B.add('vector_cart', f'vc2c {hx} {atol_s} {Vs} %d %d %d' % t, r, None,
+                  _cmp_close(1e-14, 1e-13), {'cell': label, 'vects': V.tolist(), 'uvw': list(t)},
+                  sample={'op': 'vector_crystal_to_cartesian', 'cell': label, 'uvw': list(t)})
+        # four-index input: hexagonal cells accept (guard), all others raise
+        for q in rng.sample(quads_ok, ctx.n(60, 400)):
+            for d in (0, 0, 0, 1):
+                qq = (q[0], q[1], q[2] + d, q[3])
+                r, e = _call(box.vector_crystal_to_cartesian, list(qq))
+                B.add('vector_cart:4', f'vc2c {hx} {atol_s} {Vs} %d %d %d %d' % qq, r, e, _cmp_close(1e-14, 1e-13),
+                      {'cell': label, 'vects': V.tolist(), 'uvtw': list(qq)})
+                if (qq[0], qq[1], qq[3]) != (0, 0, 0):
+                    r, e = _call(box.plane_crystal_to_cartesian, list(qq))
+                    B.add('plane_normal:4', f'plane {hx} {atol_s} {Vs} %d %d %d %d' % qq, r, e, _cmp_plane(Vfr),
+                          {'cell': label, 'vects': V.tolist(), 'hkil': list(qq)})
+        if ishex_model:
+            for t in rng.sample(tri, ctx.n(100, 800)):
+                q = miller.vector3to4(list(t))
+                r, e = _call(box.vector_crystal_to_cartesian, q)
+                B.add('vector_cart:4float', f'vc2c {hx} {atol_s} {Vs} ' + cm.frs(q), r, e, _cmp_close(1e-13, 1e-13),
+                      {'cell': label, 'uvtw': q.tolist()})
+        # wrong number of indices
+        for bad in ([1, 2], [1, 2, 3, 4, 5]):
+            r, e = _call(box.vector_crystal_to_cartesian, bad)
+            B.add('vector_cart:shape', f'vc2c {hx} {atol_s} {Vs} ' + ' '.join(map(str, bad)), r, e, _cmp_exact,
+                  {'idx': bad}, nontrivial=False)
+            r, e = _call(box.plane_crystal_to_cartesian, bad)
+            B.add('plane_normal:shape', f'plane {hx} {atol_s} {Vs} ' + ' '.join(map(str, bad)), r, e, _cmp_exact,
+                  {'idx': bad}, nontrivial=False)
+        B.run()
+
+    # ---- D. centering conversions ----------------------------------------------------------
+    small = _triples(ctx.n(3, 5))
+    S = np.array(small)
+    for setting in SETTINGS + ['t', 'x', 'P', '']:
+        for name, f, op in (('prim_to_conv', miller.vector_primitive_to_conventional, 'p2c'),
+                            ('conv_to_prim', miller.vector_conventional_to_primitive, 'c2p')):
+            res, e = _call(f, S, setting)
+            if e is not None:
+                if setting != '':
+                    B.add(name + ':unknown', f'{op} {setting} 1 2 3', None, e, _cmp_exact, {'setting': setting},
+                          nontrivial=False)
+                else:
+                    ctx.stats.case(name + ':unknown', 'empty', nontrivial=False)
+                    if e != 'err:value':
+                        ctx.disagree(name + ':unknown', 'empty setting accepted', {'op': name})
+                continue
+            for t, r in zip(small, res):
+                B.add(name, f'{op} {setting} %d %d %d' % t, r, None, _cmp_close(1e-14, 1e-15),
+                      {'setting': setting, 'uvw': list(t)}, sample={'op': name, 'setting': setting, 'uvw': list(t)})
+            _shape_variants(ctx, name, lambda x, f=f, setting=setting: f(x, setting), S, res, extra={'setting': setting})
+            for _ in range(ctx.n(20, 200)):
+                x = [rng.randint(-12, 12) / rng.choice([1, 2, 3, 4, 6]) for _ in range(3)]
+                r, e2 = _call(f, x, setting)
+                B.add(name + ':frac', f'{op} {setting} ' + cm.frs(x), r, e2, _cmp_close(1e-13, 1e-14),
+                      {'setting': setting, 'uvw': x})
+    B.run()
+
+    # ---- E. reduce_indices / all_indices ----------------------------------------------------
+    red = miller.reduce_indices(T) if False else None
+    with np.errstate(all='ignore'):
+        red = miller.reduce_indices(T)
+    if red.dtype.kind not in 'iu':
+        ctx.disagree('reduce_indices', f'reduce_indices returned dtype {red.dtype}, the model returns integers',
+                     {'op': 'reduce_indices', 'dtype': str(red.dtype)})
+    for t, r in zip(tri, red):
+        B.add('reduce_indices', 'reduce %d %d %d' % t, r, None, _cmp_ints, list(t), nontrivial=(t != (0, 0, 0)),
+              sample={'op': 'reduce_indices', 'idx': list(t)})
+    _shape_variants(ctx, 'reduce_indices', miller.reduce_indices, T, red)
+    for _ in range(ctx.n(500, 5000)):
+        g = rng.choice([1, 2, 3, 4, 5, 6, 7, 10, 12, -1])
+        n = rng.choice([3, 4])
+        base = [rng.randint(-9, 9) for _ in range(n)]
+        x = [abs(g) * v for v in base]
+        if n == 4 and rng.random() < 0.5:
+            x[2] = -(x[0] + x[1])
+        r, e = _call(miller.reduce_indices, x)
+        B.add('reduce_indices:rand', 'reduce ' + ' '.join(map(str, x)), r, e, _cmp_ints, x, nontrivial=any(x))
+    for bad in ([2, 4], [2, 4, 6, 8, 10]):
+        r, e = _call(miller.reduce_indices, bad)
+        B.add('reduce_indices:shape', 'reduce ' + ' '.join(map(str, bad)), r, e, _cmp_ints, bad, nontrivial=False)
+    for m in range(0, ctx.n(5, 9)):
+        for rflag in (False, True):
+            with np.errstate(all='ignore'):
+                arr = miller.all_indices(m, reduce=rflag)
+
+            def cmp_all(impl, out, arr=arr):
+                toks = out.split()
+                cnt = int(toks[0])
+                flat = [int(t) for t in toks[1:]]
+                a2 = np.asarray(impl)
+                if a2.dtype.kind not in 'iu':
+                    return f'dtype {a2.dtype}'
+                if a2.shape != (cnt, 3) or a2.ravel().tolist() != flat:
+                    return f'implementation lists {a2.shape[0]} rows, model {cnt}; or order/content differs'
+                return None
+            B.add('all_indices', f'allidx {m} {1 if rflag else 0}', arr, None, cmp_all, {'maxindex': m, 'reduce': rflag},
+                  nontrivial=m > 0, sample={'op': 'all_indices', 'maxindex': m, 'reduce': rflag, 'rows': int(arr.shape[0])})
+    B.run()
+
+    # ---- F. fromstring ------------------------------------------------------------------------
+    for it in range(ctx.n(1500, 20000)):
+        n = rng.choice([3, 4])
+        big = rng.random() < 0.2
+        idx = [rng.randint(-120, 120) if big else rng.randint(-N, N) for _ in range(n)]
+        frac = None
+        if rng.random() < 0.6:
+            frac = (rng.choice([1, 1, 1, 2, 3, 5, -1, -2, 7, 11, 12]), rng.choice([1, 2, 3, 4, 5, 6, 8, 12, 16]))
+        kind = BRACKETS[it % 4]
+        s = _render(rng, frac, kind, idx, messy=(it % 3 == 0))
+        r, e = _call(miller.fromstring, s)
+        B.add('fromstring', _codes(s), r, e, _cmp_close(4e-16, 0.0), s, sample={'op': 'fromstring', 'string': s})
+    for it in range(ctx.n(200, 2000)):           # legacy form: numbers only
+        idx = [rng.randint(-N, N) for _ in range(rng.choice([3, 4]))]
+        s = ' '.join(map(str, idx))
+        r, e = _call(miller.fromstring, s)
+        B.add('fromstring:legacy', _codes(s), r, e, _cmp_close(4e-16, 0.0), s)
+    for s in _malformed(rng, ctx.n(200, 2000)):
+        r, e = _call(miller.fromstring, s)
+        B.add('fromstring:malformed', _codes(s), r, e, _cmp_close(4e-16, 0.0), s, nontrivial=False)
+    B.run()
+
+
+def _malformed(rng, n):
+    out = ['[1 0 0', '(1 0 0]', '[1 0 0)', '{1 0 0', '<1 1 -2 0', '[1 2]', '[1 2 3 4 5]', '[]', '[ ]',
+           '1/0 [1 0 0]', '1/2/3 [1 0 0]', '2 [1 0 0]', '1/2 [1 0]', '1/-0 (1 1 1)', '1 2', '1 2 3 4 5', '',
+           '] [1 2 3', '1/2 ] [1 2 3', '(1 2 3) [1 1 1]', '[1 1 1] (1 2 3)', '1/2 (1 2 3) [4 5 6]', '{1 1 1} <1 2 3>']
+    while len(out) < n:
+        idx = [rng.randint(-9, 9) for _ in range(rng.choice([1, 2, 5, 6, 3, 4]))]
+        o, c = rng.choice(BRACKETS)
+        kind = rng.choice(['noclose', 'wrongclose', 'count', 'zerodiv', 'twoslash', 'noslash'])
+        body = ' '.join(map(str, idx))
+        if kind == 'noclose':
+            out.append(o + body)
+        elif kind == 'wrongclose':
+            c2 = rng.choice([x[1] for x in BRACKETS if x[1] != c])
+            out.append(o + body + c2)
+        elif kind == 'count':
+            out.append(o + body + c)
+        elif kind == 'zerodiv':
+            out.append(f'{rng.randint(-5, 5)}/0 ' + o + body + c)
+        elif kind == 'twoslash':
+            out.append(f'1/{rng.randint(1, 5)}/{rng.randint(1, 5)} ' + o + body + c)
+        else:
+            out.append(f'{rng.randint(1, 5)} ' + o + body + c)
+    return out
+
+
+def _shape_variants(ctx, name, f, flat_in, flat_out, extra=None):
+    """numpy shape plumbing: list input, single rows, nested leading shapes give the flat result reshaped."""
+    np = _np()
+    n = flat_in.shape[0]
+    n2 = (n // 6) * 6
+    variants = [('list', flat_in[:n2].tolist(), flat_out[:n2]),
+                ('single', flat_in[n // 2], flat_out[n // 2]),
+                ('single-list', flat_in[n // 3].tolist(), flat_out[n // 3]),
+                ('(2,n/2,k)', flat_in[:n2].reshape(2, n2 // 2, -1), flat_out[:n2].reshape(2, n2 // 2, -1)),
+                ('(n/6,3,2,k)', flat_in[:n2].reshape(n2 // 6, 3, 2, -1), flat_out[:n2].reshape(n2 // 6, 3, 2, -1)),
+                ('(1,k)', flat_in[:1], flat_out[:1])]
+    for label, x, want in variants:
+        got, e = _call(f, x)
+        ctx.stats.case(name + ':shape', (name, label, str(extra)), nontrivial=True)
+        if e is not None or np.asarray(got).shape != np.asarray(want).shape or \
+                not np.array_equal(np.asarray(got), np.asarray(want), equal_nan=True):
+            ctx.disagree(name + ':shape', f'{name}: input of shape variant {label} does not give the flat result reshaped '
+                         f'({e or np.asarray(got).shape})', {'op': name + ':shape', 'variant': label, 'extra': extra})
+
+
+# ----------------------------------------------------------------------------------------
+# search: the property's own clauses on the REAL code, exact rational oracle (no Lean involved)
+# ----------------------------------------------------------------------------------------
+MULTIPLICITY = {'p': 1, 'a': 2, 'b': 2, 'c': 2, 'i': 2, 'f': 4, 't1': 3, 't2': 3}
+
+
+def _F(x):
+    return Fraction(float(x))
+
+
+def _fcross(a, b):
+    return [a[1] * b[2] - a[2] * b[1], a[2] * b[0] - a[0] * b[2], a[0] * b[1] - a[1] * b[0]]
+
+
+def _fdot(a, b):
+    return sum(x * y for x, y in zip(a, b))
+
+
+def _recip_dir(V, hkl):
+    """exact h a* + k b* + l c* times det V (same direction for a right-handed cell) and det V."""
+    a, b, c = V
+    det = _fdot(a, _fcross(b, c))
+    bc, ca, ab = _fcross(b, c), _fcross(c, a), _fcross(a, b)
+    g = [hkl[0] * bc[i] + hkl[1] * ca[i] + hkl[2] * ab[i] for i in range(3)]
+    return g, det
+
+
+def _o_roundtrip34(ctx, np, miller, t):
+    """round trips 3 -> 4 -> 3 and 4 -> 3 -> 4, guard behaviour."""
+    t = list(t)
+    p4 = miller.plane3to4(t)
+    back = miller.plane4to3(p4)
+    ok = [Fraction(x) for x in back.tolist()] == [Fraction(x) for x in t] and Fraction(p4[0] + p4[1] + p4[2]) == 0
+    again = miller.plane3to4(back)
+    ok = ok and again.tolist() == p4.tolist()
+    if not ok:
+        ctx.violate('plane34:roundtrip', f'plane3to4/plane4to3 round trip loses {t}: 3->4 {p4.tolist()}, back {back.tolist()}',
+                    {'op': 'roundtrip34', 'idx': t})
+    v4 = miller.vector3to4(t)
+    want4 = [Fraction(2 * t[0] - t[1], 3), Fraction(2 * t[1] - t[0], 3), Fraction(-(t[0] + t[1]), 3), Fraction(t[2])]
+    r, e = _call(miller.vector4to3, v4)
+    ok = e is None and cm.allclose(v4.tolist(), want4, 1e-14, 1e-15) and cm.allclose(r.tolist(), [Fraction(x) for x in t], 1e-14, 1e-14)
+    if ok:
+        v4b = miller.vector3to4(r)
+        ok = cm.allclose(v4b.tolist(), want4, 1e-14, 1e-14)
+    if not ok:
+        ctx.violate('vector34:roundtrip', f'vector3to4/vector4to3 round trip loses {t}: 3->4 {v4.tolist()}, back '
+                    f'{None if r is None else r.tolist()} ({e})', {'op': 'roundtrip34', 'idx': t})
+    # guard: a quadruple whose first three entries do not sum to zero is rejected
+    for f, nm in ((miller.plane4to3, 'plane4to3'), (miller.vector4to3, 'vector4to3')):
+        bad = [t[0], t[1], -(t[0] + t[1]) + 1, t[2]]
+        r, e = _call(f, bad)
+        if e != 'err:value':
+            ctx.violate(nm + ':guard', f'{nm} accepts {bad} although the first three indices do not sum to zero',
+                        {'op': 'roundtrip34', 'idx': t})
+
+
+def _o_same_direction(ctx, np, miller, hexbox, t):
+    """[uvtw] denotes u a1 + v a2 + t a3 + w c with a3 = -a1-a2; must equal the 3-index Cartesian vector."""
+    t = list(t)
+    V = [[_F(x) for x in row] for row in hexbox.vects]
+    a1, a2, c = V
+    a3 = [-(x + y) for x, y in zip(a1, a2)]
+    q = miller.vector3to4(t)
+    cart4, e = _call(hexbox.vector_crystal_to_cartesian, q)
+    cart3 = hexbox.vector_crystal_to_cartesian(t)
+    want3 = [t[0] * a1[i] + t[1] * a2[i] + t[2] * c[i] for i in range(3)]
+    qf = [_F(x) for x in q]
+    want4 = [qf[0] * a1[i] + qf[1] * a2[i] + qf[2] * a3[i] + qf[3] * c[i] for i in range(3)]
+    scale = max(1.0, max(abs(float(x)) for x in want3))
+    if e is not None or not cm.allclose(cart3.tolist(), want3, 1e-13, 1e-13 * scale) \
+            or not cm.allclose(cart4.tolist(), want4, 1e-12, 1e-12 * scale) \
+            or not cm.allclose(cart4.tolist(), want3, 1e-12, 1e-12 * scale):
+        ctx.violate('vector4:direction', f'[uvw]={t} and its four-index form {q.tolist()} give different Cartesian vectors '
+                    f'{cart3.tolist()} vs {None if cart4 is None else cart4.tolist()} ({e})',
+                    {'op': 'same_direction', 'idx': t, 'vects': hexbox.vects.tolist()})
+
+
+def _o_normal(ctx, np, box, label, hkl, rng):
+    """normal = unit vector along h a*+k b*+l c* (right-handed cell); perpendicular to exactly the zone-law vectors."""
+    hkl = list(hkl)
+    V = [[_F(x) for x in row] for row in box.vects]
+    g, det = _recip_dir(V, hkl)
+    if det <= 0:
+        return
+    n, e = _call(box.plane_crystal_to_cartesian, hkl)
+    replay = {'op': 'normal', 'hkl': hkl, 'vects': box.vects.tolist(), 'cell': label}
+    if e is not None:
+        ctx.violate('plane_normal:raises', f'plane_crystal_to_cartesian({hkl}) raised {e} on a {label} cell', replay)
+        return
+    gn = math.sqrt(float(_fdot(g, g)))
+    unit = [float(x) / gn for x in g]
+    rown = [math.sqrt(float(_fdot(r, r))) for r in V]
+    # conditioning of the two-vector construction is not visible here: bound it by the worst in-plane pair the
+    # code can pick, |a|,|b| <= 2*lcm * max row norm
+    m = 1
+    for x in hkl:
+        if x:
+            m = m * abs(x) // math.gcd(m, abs(x))
+    big = (2 * m * max(rown)) ** 2
+    tol = 16 * U * big * float(det) / (gn * float(det)) * 1.0 + 1e-12
+    tol = min(max(tol, 1e-12), 1e-6)
+    nl = n.tolist()
+    if not all(abs(a - b) <= tol for a, b in zip(nl, unit)) or abs(sum(x * x for x in nl) - 1.0) > 1e-12:
+        ctx.violate('plane_normal:reciprocal', f'normal of {hkl} in a {label} cell is {nl}, the unit reciprocal-lattice '
+                    f'direction is {unit}', dict(replay, impl=nl, expected=unit))
+        return
+    # zone law on lattice vectors
+    for _ in range(4):
+        uvw = [rng.randint(-6, 6) for _ in range(3)]
+        if rng.random() < 0.6:      # force a zone-axis vector: cross product of hkl with a random integer vector
+            uvw = _fcross(hkl, uvw)
+        if not any(uvw):
+            continue
+        z = hkl[0] * uvw[0] + hkl[1] * uvw[1] + hkl[2] * uvw[2]
+        cart = [sum(uvw[i] * V[i][j] for i in range(3)) for j in range(3)]
+        cn = math.sqrt(float(_fdot(cart, cart)))
+        d = sum(a * float(b) for a, b in zip(nl, cart))
+        want = z * float(det) / gn          # n . (uvw V) = (hu+kv+lw) / |G|,  |G| = gn / det
+        if abs(d - want) > (tol * 4) * cn + 1e-12:
+            ctx.violate('plane_normal:zone', f'normal of {hkl} in a {label} cell: n.[uvw]={uvw} is {d}, zone law gives '
+                        f'{want} (hu+kv+lw = {z})', dict(replay, uvw=uvw))
+            return
+
+
+def _o_centering(ctx, np, miller, setting, t):
+    t = list(t)
+    a, e1 = _call(miller.vector_conventional_to_primitive, t, setting)
+    b, e2 = (None, 'x') if e1 else _call(miller.vector_primitive_to_conventional, a, setting)
+    c, e3 = _call(miller.vector_primitive_to_conventional, t, setting)
+    d, e4 = (None, 'x') if e3 else _call(miller.vector_conventional_to_primitive, c, setting)
+    tf = [Fraction(x) for x in t]
+    if e1 or e2 or e3 or e4 or not cm.allclose(b.tolist(), tf, 1e-13, 1e-13) or not cm.allclose(d.tolist(), tf, 1e-13, 1e-13):
+        ctx.violate('centering:inverse', f"setting '{setting}': conventional->primitive->conventional of {t} gives "
+                    f'{None if b is None else b.tolist()}, primitive->conventional->primitive gives '
+                    f'{None if d is None else d.tolist()}', {'op': 'centering', 'setting': setting, 'idx': t})
+
+
+def _o_centering_det(ctx, np, miller, setting):
+    eye = np.eye(3)
+    C = miller.vector_conventional_to_primitive(eye, setting)
+    P = miller.vector_primitive_to_conventional(eye, setting)
+    Cf = [[Fraction(x).limit_denominator(1000) for x in row] for row in C.tolist()]
+    Pf = [[Fraction(x).limit_denominator(1000) for x in row] for row in P.tolist()]
+    dc, dp = _det3(Cf), _det3(Pf)
+    integral = all(x.denominator == 1 for row in Cf for x in row)
+    ctx.stats.case('oracle:centering-det', setting)
+    if not integral or dc.denominator != 1 or dc * dp != 1 or dc != MULTIPLICITY[setting]:
+        ctx.violate('centering:det', f"setting '{setting}': det(conventional->primitive) = {dc}, det(primitive->conventional) "
+                    f'= {dp}; expected the integer multiplicity {MULTIPLICITY[setting]} and its reciprocal',
+                    {'op': 'centering_det', 'setting': setting})
+
+
+def _o_reduce(ctx, np, miller, x):
+    x = list(x)
+    r, e = _call(miller.reduce_indices, x)
+    replay = {'op': 'reduce', 'idx': x}
+    if e is not None:
+        ctx.violate('reduce:raises', f'reduce_indices({x}) raised {e}', replay)
+        return
+    arr = np.asarray(r)
+    vals = arr.tolist()
+    if arr.dtype.kind not in 'iu' or arr.shape != (len(x),):
+        ctx.violate('reduce:integers', f'reduce_indices({x}) returned {vals} of dtype {arr.dtype}: not integer indices', replay)
+        return
+    g = 0
+    for v in vals:
+        g = math.gcd(g, abs(int(v)))
+    gx = 0
+    for v in x:
+        gx = math.gcd(gx, abs(v))
+    if g != 1 or [gx * v for v in vals] != x:
+        ctx.violate('reduce:coprime', f'reduce_indices({x}) = {vals}: not the coprime indices of the same direction', replay)
+
+
+def _o_reduce_shape(ctx, np, miller, rows, shape):
+    """arrays of any leading shape: every row is reduced as it is alone."""
+    arr = np.array(rows).reshape(shape + (len(rows[0]),))
+    r, e = _call(miller.reduce_indices, arr)
+    want = []
+    for x in rows:
+        g = 0
+        for v in x:
+            g = math.gcd(g, abs(v))
+        want.append([v // g for v in x] if g else list(x))
+    replay = {'op': 'reduce_shape', 'rows': [list(map(int, x)) for x in rows], 'shape': list(shape)}
+    if e is not None or np.asarray(r).shape != arr.shape or np.asarray(r).reshape(-1, len(rows[0])).tolist() != want:
+        ctx.violate('reduce:leading-shape', f'reduce_indices on an array of shape {arr.shape}: '
+                    f'{e or np.asarray(r).tolist()}, row-wise reduction is {np.array(want).reshape(arr.shape).tolist()}',
+                    replay)
+
+
+def _o_string(ctx, np, miller, s, frac, idx):
+    r, e = _call(miller.fromstring, s)
+    f = Fraction(1) if frac is None else Fraction(frac[0], frac[1])
+    want = [f * i for i in idx]
+    if e is not None or len(r) != len(want) or not cm.allclose(r.tolist(), want, 4e-16, 0.0):
+        ctx.violate('fromstring:value', f'fromstring({s!r}) = {None if r is None else r.tolist()} ({e}), the string shows '
+                    f'{[str(w) for w in want]}', {'op': 'string', 'string': s, 'frac': frac, 'idx': idx})
+
+
+def _o_family(ctx, np, fam, args, box):
+    got, e = _call(box.identifyfamily)
+    preds = {'cubic': 'iscubic', 'hexagonal': 'ishexagonal', 'tetragonal': 'istetragonal',
+             'rhombohedral': 'isrhombohedral', 'orthorhombic': 'isorthorhombic', 'monoclinic': 'ismonoclinic',
+             'triclinic': 'istriclinic'}
+    own, e2 = _call(getattr(box, preds[fam]))
+    if e is not None or e2 is not None or got != fam or not own:
+        ctx.violate('family:' + fam, f'Box built as {fam}{tuple(args)} is identified as {got} (own predicate: {own}) '
+                    f'{e or ""}', {'op': 'family', 'family': fam, 'args': list(args)})
+    from atomman.tools import crystalsystem
+    got2, e3 = _call(crystalsystem.identifyfamily, box)
+    if e3 is not None or got2 != fam:
+        ctx.violate('family:crystalsystem:' + fam, f'crystalsystem.identifyfamily on a {fam}{tuple(args)} cell gives {got2}',
+                    {'op': 'family', 'family': fam, 'args': list(args)})
+
+
+def search(ctx, broken):
+    np = _np()
+    import atomman as am
+    from atomman.tools import miller
+    rng = random.Random(ctx.seed + 16)
+    mult = 3 if broken else 1
+    N = ctx.n(6, 12)
+    tri = _triples(N)
+    # 1. round trips, exhaustive
+    for t in tri:
+        ctx.stats.case('oracle:roundtrip34', t)
+        _o_roundtrip34(ctx, np, miller, t)
+    # 2. same Cartesian direction in hexagonal cells
+    for _ in range(ctx.n(3, 10) * mult):
+        a, b, c = _generic_lengths(rng)
+        hb = am.Box.hexagonal(a, c)
+        for t in rng.sample(tri, ctx.n(150, 600)):
+            ctx.stats.case('oracle:same_direction', (a, c, t))
+            _o_same_direction(ctx, np, miller, hb, t)
+    # 3. plane normals: every family + dyadic + float triclinic; exhaustive triples on the first cells
+    cells = [(fam, box) for fam, args, box in _family_cells(rng)]
+    cells += [('dyadic', _dyadic_cell(rng)) for _ in range(ctx.n(2, 6) * mult)]
+    cells += [('float-triclinic', _float_cell(rng)) for _ in range(ctx.n(1, 6) * mult)]
+    nz = [t for t in tri if t != (0, 0, 0)]
+    for ci, (label, box) in enumerate(cells):
+        sel = nz if ci < ctx.n(4, 9) else rng.sample(nz, ctx.n(400, 3000))
+        for t in sel:
+            ctx.stats.case('oracle:normal', (label, ci, t))
+            _o_normal(ctx, np, box, label, t, rng)
+    r, e = _call(cells[0][1].plane_crystal_to_cartesian, [0, 0, 0])
+    if e != 'err:value':
+        ctx.violate('plane_normal:zero', 'the zero plane index vector is not rejected', {'op': 'normal-zero'})
+    # 4. centering
+    for setting in SETTINGS:
+        _o_centering_det(ctx, np, miller, setting)
+        for t in _triples(3):
+            ctx.stats.case('oracle:centering', (setting, t))
+            _o_centering(ctx, np, miller, setting, t)
+    # 5. reduce
+    for t in tri:
+        if t != (0, 0, 0):
+            ctx.stats.case('oracle:reduce', t)
+            _o_reduce(ctx, np, miller, t)
+    for _ in range(ctx.n(500, 5000) * mult):
+        g = rng.choice([1, 2, 3, 4, 6, 9, 10])
+        x = [g * rng.randint(-12, 12) for _ in range(rng.choice([3, 4]))]
+        if any(x):
+            ctx.stats.case('oracle:reduce', tuple(x))
+            _o_reduce(ctx, np, miller, x)
+    for _ in range(ctx.n(60, 600) * mult):
+        shape = rng.choice([(2, 2), (2, 3), (3, 2), (4,), (1, 5), (2, 2, 2), (3, 3)])
+        cnt = 1
+        for d in shape:
+            cnt *= d
+        k = rng.choice([3, 4])
+        rows = []
+        while len(rows) < cnt:
+            g = rng.choice([1, 2, 3, 5, 7])
+            x = [g * rng.randint(-6, 6) for _ in range(k)]
+            if any(x):
+                rows.append(x)
+        ctx.stats.case('oracle:reduce-shape', (shape, tuple(map(tuple, rows))))
+        _o_reduce_shape(ctx, np, miller, rows, shape)
+    with np.errstate(all='ignore'):
+        for m in range(1, ctx.n(4, 7)):
+            allr = miller.all_indices(m, reduce=True)
+            alln = miller.all_indices(m)
+            ctx.stats.case('oracle:all_indices', m)
+            want = sorted({tuple(t) for t in _triples(m) if t != (0, 0, 0)})
+            wantr = sorted(t for t in want if math.gcd(math.gcd(abs(t[0]), abs(t[1])), abs(t[2])) == 1)
+            if sorted(map(tuple, alln.tolist())) != want or len(alln) != len(want) \
+                    or list(map(tuple, allr.tolist())) != wantr:
+                ctx.violate('all_indices', f'all_indices({m}) does not list exactly the non-zero triples / the coprime triples',
+                            {'op': 'all_indices', 'maxindex': m})
+    # 6. strings
+    for it in range(ctx.n(800, 8000) * mult):
+        idx = [rng.randint(-N, N) for _ in range(rng.choice([3, 4]))]
+        frac = None if rng.random() < 0.4 else (rng.choice([1, 2, 3, -1, 5, 7]), rng.choice([1, 2, 3, 4, 6, 8, 9]))
+        s = _render(rng, frac, BRACKETS[it % 4], idx, messy=(it % 2 == 0))
+        ctx.stats.case('oracle:string', s)
+        _o_string(ctx, np, miller, s, frac, idx)
+    # 7. families
+    for _ in range(ctx.n(40, 400) * mult):
+        for fam, args, box in _family_cells(rng):
+            ctx.stats.case('oracle:family', (fam, args))
+            _o_family(ctx, np, fam, args, box)
+
+
+def replay(ctx, payload):
+    """re-run one stored case (oracle cases by input; model disagreements by driver line) on the current tree."""
+    np = _np()
+    import atomman as am
+    from atomman.tools import miller
+    r = payload.get('replay', {})
+    op = r.get('op')
+    rng = random.Random(0)
+    if op == 'roundtrip34':
+        _o_roundtrip34(ctx, np, miller, r['idx'])
+    elif op == 'same_direction':
+        _o_same_direction(ctx, np, miller, am.Box(vects=r['vects']), r['idx'])
+    elif op == 'normal':
+        _o_normal(ctx, np, am.Box(vects=r['vects']), r.get('cell', '?'), r['hkl'], rng)
+    elif op == 'centering':
+        _o_centering(ctx, np, miller, r['setting'], r['idx'])
+    elif op == 'centering_det':
+        _o_centering_det(ctx, np, miller, r['setting'])
+    elif op == 'reduce':
+        _o_reduce(ctx, np, miller, r['idx'])
+    elif op == 'reduce_shape':
+        _o_reduce_shape(ctx, np, miller, r['rows'], tuple(r['shape']))
+    elif op == 'string':
+        _o_string(ctx, np, miller, r['string'], r['frac'], r['idx'])
+    elif op == 'family':
+        fam, args = r['family'], r['args']
+        ctor = {'cubic': am.Box.cubic, 'hexagonal': am.Box.hexagonal, 'tetragonal': am.Box.tetragonal,
+                'rhombohedral': am.Box.trigonal, 'orthorhombic': am.Box.orthorhombic,
+                'monoclinic': am.Box.monoclinic, 'triclinic': am.Box.triclinic}[fam]
+        _o_family(ctx, np, fam, args, ctor(*args))
+    else:
+        if ctx.driver is not None:
+            correspond(ctx)
+        search(ctx, True)
+    print(f'replay {op}: {"still fails" if ctx.violations else "passes now"}')
+
+
+MANIFEST = {
+    'text': 'Lean 4 theorems over an executable model of miller.py / the Box family predicates, for ALL integers and every '
+            'ordered field: 3<->4 index round trips with the explicit sum guard, four-index vectors denote the same '
+            'Cartesian vector, in every one of the 7 zero-pattern branches the in-plane pair gives s(a x b) = positive '
+            'rational * (h,k,l), hence the returned normal is the unit vector along h a*+k b*+l c* for det>0 and the zone law '
+            'n.(uvw V)=0 <-> hu+kv+lw=0; the 16 centering matrices are regenerated from miller.py on every run and proved '
+            'mutually inverse with det 1/n and n; reduce_indices gives coprime indices of the same direction, all_indices '
+            'lists exactly the bounded non-zero triples; family predicates/identifyfamily identify every family-constructor '
+            'parameter set. The model is tied to the code by an exhaustive differential run (all index triples to the bound, '
+            'cells of every family, strings, boundary parameter sets).',
+    'note': 'Trusted: Lean kernel + propext/Classical.choice/Quot.sound; the table translator (harness/props/c16.py); numpy '
+            'primitives; norm (sqrt) and the float rounding bound of the cross product are assumptions; Python float() '
+            'numerals modelled for the integer grammar only; Box.a..gamma (sqrt/arccos) are inputs of the family model.',
+    'technique': 'Lean 4 theorems over a hand-written model + translator-generated tables + differential correspondence',
+}
